@@ -128,7 +128,7 @@ func drawArg(t *rt.Tape, bits int, bigHeader bool) circuit.IOArg {
 		rest := bits
 		if t.Choose(rt.SGen, 4) == 0 {
 			// a zero-width member (empty string, empty array): no wires, but part of the signature
-			z := circuit.IOArg{Name: drawName(t), Type: mustType([]string{"uint0", "string0", "[3]uint0", "int0"}[t.Choose(rt.SGen, 4)])}
+			z := circuit.IOArg{Name: drawName(t), Type: mustType([]string{"uint0", "string0", "[3]uint0", "int0", "[0]uint8", "[2][0]uint8", "[0]int16"}[t.Choose(rt.SGen, 7)])}
 			arg.Compound = append(arg.Compound, z)
 			rt.Reach("io.zero-width-member")
 		}
